@@ -567,6 +567,13 @@ def run_paths(body, max_paths=4000, check_feasible=True):
                 nm = getattr(e, "name", None)
                 if nm and (hasattr(builtins, nm) or nm in MODULE_NAMES):
                     raise Undecided("global name %r is not provided by the contract's namespace (unmodelled)" % nm)
+            # numpy refusing to cast / format a symbolic scalar is a limit of the shim, not a failure of the code
+            if isinstance(e, (TypeError, ValueError)):
+                msg = str(e)
+                sym_names = ("Ph", "PhSum", "Scaled", "SNum", "SCplx", "SBool")
+                if any(("not '%s'" % n_) in msg or ("not %s" % n_) in msg.split(",")[-1] for n_ in sym_names) and \
+                        any(k_ in msg for k_ in ("must be real number", "must be a string or a real number", "must be a string or a number", "can't convert", "cannot convert")):
+                    raise Undecided("numpy cannot cast a symbolic scalar here (%s): outside the shim" % msg)
             tb = traceback.extract_tb(e.__traceback__)
             where = [fr for fr in tb if fr.filename.startswith("<extracted")]
             inside_engine = bool(tb) and not where and all("/pyvc/" in fr.filename or "/contracts/" in fr.filename for fr in tb[1:])
